@@ -22,6 +22,7 @@ package ios
 var cmdInfo = `
 [ANCHOR]
 ip_route *
+ipv6_route *
 interface *
  ip address *
  ip unnumbered *
